@@ -26,6 +26,8 @@ def value_corpus(F, tier, name):
     recs += gen.g_limb_crossers(F, rng, tier)
     recs += gen.g_pow2_digits(F, rng, tier)
     recs += gen.g_trailing_zeros(F, rng, tier)
+    recs += gen.g_sticky_positions(F, rng, tier)[:: 3 if q else 1]
+    recs += gen.g_subnormal_neighbours(F, rng, tier)
     recs += gen.g_zero_limbs(F, rng, tier)
     recs += gen.g_sparse_bigmant(F, rng, 10 if q else 200) if F.name == "f64" else []
     recs += gen.g_budget_splits(F, rng, tier)[:: 3 if q else 1]
@@ -482,6 +484,7 @@ def long_corpus(F, tier, name):
     recs += gen.g_runs(F, rng, 100 if q else 4000)
     recs += gen.g_int_ties(F, rng, 30 if q else 600)
     recs += gen.g_budget_splits(F, rng, tier)
+    recs += gen.g_sticky_positions(F, rng, tier)
     recs += gen.g_limb_crossers(F, rng, tier)
     big = 100000 if q else 1000000
     # exact ties with a far-out digit / tails of every length class
@@ -548,6 +551,7 @@ def range_corpus(F, tier, name):
         r["tag"] = "C07:lowdecade:" + r["tag"].split(":")[1]
         recs.append(r)
     recs += gen.g_beyond_range(F, rng, 1 if q else 5)
+    recs += gen.g_subnormal_neighbours(F, rng, tier)
     for ef in (F.emaxfield - 1, F.emaxfield - 2, 1, 2):
         for fr in ((0, (1 << F.mbits) - 1) if q else (0, 1, (1 << F.mbits) - 1, (1 << F.mbits) - 2)):
             for r in gen.midpoint_variants(F, (ef << F.mbits) | fr, rng, tier):
